@@ -107,6 +107,13 @@ HEADERS = [
     ('Content-Length', '5'), ('CIMOperation', 'MethodResponse'),
     ('Transfer-Encoding', 'chunked'),
 ]
+LOCATIONS = ['http://[bad', 'https://[::1', 'http://srv/cimom', '/cimom', '/x',
+             '', ' ', '//', 'ftp://x/y', 'http://other:99999/', 'http://h:abc/',
+             'http://exa mple/', 'http://\u00e9/', 'mailto:a@b', 'http://',
+             'http://srv:5988/cimom?x=1#frag', '../..', 'http://[::1]:5988/',
+             'http://user:pw@srv/cimom', 'HTTP://SRV/cimom', ':', 'a b',
+             'http://srv/\x00']
+PAYLOAD_OPS = sorted(R.KIND)
 AUTH_PARTS = ['Basic realm="x"', 'Basic', 'Negotiate', 'Digest realm="a, b"',
               '', ' ', 'basic', 'Basic  realm="x"', ' Basic realm="x"',
               'Kerberos', 'NTLM abc==', '\tBasic', 'Basic,']
@@ -190,11 +197,25 @@ def g_response(draw):
         if draw(S._B):
             headers.append(('PGErrorDetail', draw(st.sampled_from(
                 ['a%20b', '%', '%zz', '%ff%fe', '', 'a b', '%E2%82']))))
+    elif scen < 16:
+        # redirects: requests follows them and parses the Location value
+        status = draw(st.sampled_from([(301, 'Moved Permanently'),
+                                       (302, 'Found'), (303, 'See Other'),
+                                       (307, 'Temporary Redirect'),
+                                       (308, 'Permanent Redirect')]))
+        headers.append(('Location', draw(st.sampled_from(LOCATIONS))))
     spec['status'] = status
     spec['headers'] = headers
     if mode in ('xml', 'bytes'):
         spec['pool'] = R.g_pool(draw)
         spec['mut'] = R.g_mutations(draw)
+        r = draw(S._I100)
+        if r < 12:
+            # the (valid) answer to another operation / the other level
+            spec['payload_of'] = draw(st.sampled_from(PAYLOAD_OPS))
+            spec['flip_level'] = draw(S._B)
+            if r < 8:
+                spec['mut'] = []
     if mode == 'bytes':
         spec['damage'] = (draw(st.integers(0, R.N_DAMAGE - 1)),
                           draw(st.integers(0, 10 ** 6)),
@@ -267,8 +288,10 @@ def build_body(spec, tag, name, call, force_final=False):
         except Exception:  # pylint: disable=broad-except
             pass  # recorded body that is not well-formed: use as is
         return text.encode('utf-8')
+    if spec.get('flip_level'):
+        class_level = not class_level
     text = R.valid_response(tag or 'IMETHODCALL', name or 'x', spec['pool'],
-                            class_level)
+                            class_level, payload_of=spec.get('payload_of'))
     text = R.mutate(text, spec['mut'])
     body = text.encode('utf-8')
     if mode == 'bytes':
@@ -357,7 +380,7 @@ def _reaches_logic(body):
         return False
 
 
-def oracle(ctx, ex):
+def oracle(ctx, ex, key=None):
     import warnings
     with warnings.catch_warnings():
         warnings.simplefilter('ignore')
@@ -365,6 +388,12 @@ def oracle(ctx, ex):
     op = ex['call']['op']
     classes = ['op:' + op, 'outcome:' + outcome,
                'mode:' + ex['responses'][0]['mode']]
+    if any(sp.get('payload_of') for sp in ex['responses']):
+        classes.append('payload:of-another-operation')
+    if any(300 <= sp['status'][0] < 400 and
+           any(k == 'Location' for k, _ in sp['headers'])
+           for sp in ex['responses']):
+        classes.append('scenario:redirect-with-location')
     if outcome == 'leak':
         ctx.fail_exc(val, 'leak')
     elif outcome == 'error':
@@ -408,7 +437,7 @@ def oracle(ctx, ex):
         nontriv = any(s['mode'] in ('xml', 'yaml') and len(s.get('mut', ()))
                       <= 1 for s in specs) or \
             any(b is not None and _reaches_logic(b) for b in bodies[:2])
-    ctx.case(nontrivial=nontriv, classes=classes)
+    ctx.case(key=key, nontrivial=nontriv, classes=classes)
 
 
 # ---------------------------------------------------------------------------
@@ -434,11 +463,129 @@ def atheris_replay(ctx, example):
     oracle(ctx, fuzz_c02.example_from_bytes(data))
 
 
+# ---------------------------------------------------------------------------
+# sub-check: crosskind (exhaustive) - every operation answered with the valid
+# payload of every kind of response ("wrong element for the operation")
+
+_FIXED_POOL = {
+    'insts': [{'k': 'inst', 'classname': 'CIM_Foo', 'properties': [
+        {'k': 'prop', 'name': 'p', 'type': 'uint8', 'value': 1,
+         'is_array': False, 'array_size': None, 'reference_class': None,
+         'embedded_object': None, 'class_origin': None, 'propagated': None,
+         'qualifiers': []}], 'qualifiers': [], 'path': {
+             'k': 'ipath', 'classname': 'CIM_Foo',
+             'keys': [('k', 'uint8', 1)], 'namespace': 'root/cimv2',
+             'host': 'h'}}],
+    'classes': [{'k': 'class', 'classname': 'CIM_Foo', 'superclass': None,
+                 'properties': [], 'methods': [], 'qualifiers': []}],
+    'qdecls': [{'k': 'qualdecl', 'name': 'Q', 'type': 'string',
+                'value': None, 'is_array': False, 'array_size': None,
+                'scopes': None, 'overridable': None, 'tosubclass': None,
+                'toinstance': None, 'translatable': None}],
+    'retval': ('uint32', False, 0), 'outs': [('o', ('string', False, 'a'))],
+    'eos': True, 'ctx': 'ctx-1'}
+_KIND_OPS = None
+_FIXED_CALLS = {}
+
+
+def _kind_ops():
+    "one operation name per distinct payload kind"
+    global _KIND_OPS
+    if _KIND_OPS is None:
+        seen = {}
+        for opn in sorted(R.KIND):
+            seen.setdefault(R.KIND[opn], opn)
+        _KIND_OPS = sorted(seen.values())
+    return _KIND_OPS
+
+
+def _fixed_calls():
+    """
+    Deterministic valid calls: for every operation up to two (instance-level
+    and class-level target where the operation has both), drawn once from
+    the normal call generator with a derandomized Hypothesis run.
+    """
+    if _FIXED_CALLS:
+        return _FIXED_CALLS
+    from hypothesis import given, settings, Phase, HealthCheck
+    got = {}
+
+    @settings(max_examples=1, derandomize=True, database=None, deadline=None,
+              phases=[Phase.generate],
+              suppress_health_check=list(HealthCheck))
+    @given(st.data())
+    def grab(data):
+        for opn in O.ALL_OPS:
+            variants = {}
+            for _ in range(8):
+                call = O.g_call(data.draw, opn, simple_paths=True)
+                if opn.startswith('Iter'):
+                    for k in ('FilterQuery', 'FilterQueryLanguage',
+                              'ContinueOnError', 'ReturnQueryResultClass'):
+                        if k in call['args'] and opn != 'IterQueryInstances':
+                            call['args'][k] = None
+                    if opn == 'IterQueryInstances':
+                        call['args']['ContinueOnError'] = None
+                        call['args']['ReturnQueryResultClass'] = None
+                on = call['args'].get('ObjectName')
+                level = 'inst' if isinstance(on, dict) and \
+                    on.get('k') == 'ipath' else 'class'
+                variants.setdefault(level, call)
+            got[opn] = [variants[k] for k in sorted(variants)]
+    grab()
+    _FIXED_CALLS.update(got)
+    return _FIXED_CALLS
+
+
+def _crosskind_example(key):
+    opn, ci, kind_op, flip, eos, pull = key
+    pool = dict(_FIXED_POOL, eos=bool(eos))
+    calls = _fixed_calls()[opn]
+    return {'call': calls[ci % len(calls)],
+            'conn': {'dns': None, 'pull': pull, 'stats': False},
+            'responses': [{'mode': 'xml', 'status': (200, 'OK'),
+                           'headers': [], 'pool': pool, 'mut': [],
+                           'payload_of': kind_op, 'flip_level': bool(flip)}]}
+
+
+def crosskind_keys():
+    keys = []
+    calls = _fixed_calls()
+    for opn in O.ALL_OPS:
+        for ci in range(len(calls[opn])):
+            for kind_op in _kind_ops():
+                kind = R.KIND[kind_op]
+                for flip in (0, 1):
+                    if flip and kind not in ('objs_withpath', 'objnames'):
+                        continue    # only these payloads have two levels
+                    for eos in ((1, 0) if kind.startswith('open_') else (1,)):
+                        for pull in ((None, True) if opn.startswith('Iter')
+                                     else (None,)):
+                            keys.append((opn, ci, kind_op, flip, eos, pull))
+    return keys
+
+
+def crosskind_enumerate(ctx, shard, nshards):
+    for n, key in enumerate(crosskind_keys()):
+        if n % nshards != shard:
+            continue
+        crosskind_replay(ctx, key)
+
+
+def crosskind_replay(ctx, key):
+    key = tuple(key)
+    ctx.current = key
+    oracle(ctx, _crosskind_example(key), key=key)
+
+
 SUBCHECKS = [
     Sub('responses', strategy=strategy, oracle=oracle,
         quick=(16, 500), thorough=(16, 25000), case_timeout=60,
         timeout_is_violation=True),
     Sub('atheris', enumerate=atheris_campaign, quick=(0, 0),
         thorough=(8, 0), budget=(0, 900)),
+    Sub('crosskind', enumerate=crosskind_enumerate, quick=(8, 0),
+        thorough=(8, 0)),
 ]
 SUBCHECKS[1].replay = atheris_replay
+SUBCHECKS[2].replay = crosskind_replay
